@@ -248,6 +248,18 @@ def finish(prop, mod, tier, a, specs, results, t0, fnd):
     return 0
 
 
+def _ranges(nums):
+    out = []
+    i = 0
+    while i < len(nums):
+        j = i
+        while j + 1 < len(nums) and nums[j + 1] == nums[j] + 1:
+            j += 1
+        out.append(str(nums[i]) if i == j else '%d-%d' % (nums[i], nums[j]))
+        i = j + 1
+    return ','.join(out)
+
+
 def write_evidence(prop, mod, tier, seed, evaluations, nontrivial, samples, classes, monitors, nviol, viol_counts,
                    known, inconclusive, info, exhaustive_spaces, reach_lines, reach_funcs, shard_status, wall):
     from vt import monitor
@@ -257,6 +269,7 @@ def write_evidence(prop, mod, tier, seed, evaluations, nontrivial, samples, clas
         hit = reach_lines.get(f, set())
         fns = reach_funcs.get(f, {})
         code_reach[f] = {'lines_hit': len(hit & ex) if ex else len(hit), 'lines_executable': len(ex),
+                         'lines_not_hit': _ranges(sorted(ex - set(hit))) if ex else '',
                          'functions_entered': len(fns),
                          'calls': dict(sorted(fns.items(), key=lambda kv: -kv[1])[:40])}
     cov = {
